@@ -196,13 +196,18 @@ pub fn l5_packets() -> Vec<(&'static str, Vec<u8>)> {
         v.push(("long", encode(&m, Strategy::Plain)));
     }
     // names far into the packet: an opaque filler record puts the first interesting name near 16383
-    for pos in [16300usize, 16340, 16370, 16382, 16383, 16384, 16385, 16400] {
+    let mut positions: Vec<usize> = (16366usize..=16392).collect();
+    positions.extend_from_slice(&[16300, 16340, 16400]);
+    for pos in positions {
         let mut m = base_msg(&nm("a"), T_A, true);
         let filler_rdata = pos - (12 + 3 + 4) - (1 + 10);
         m.an.push(Rec { owner: vec![0], rtype: 99, class: 1, ttl: 0, rdata: Rdata::Opaque(vec![0x55; filler_rdata]) });
         m.an.push(name_rec(&nm("far.example"), T_CNAME, 1, &nm("t.far.example")));
         m.an.push(name_rec(&nm("far.example"), T_CNAME, 1, &nm("t.far.example")));
         m.ns.push(name_rec(&nm("x.far.example"), T_NS, 1, &nm("a")));
+        // names whose longest known suffix is an INNER suffix of the name that straddles offset 16384
+        m.ns.push(name_rec(&nm("other.example"), T_NS, 1, &nm("more.example")));
+        m.ar.push(mx_rec(&nm("example"), 1, 1, &nm("t.far.example")));
         v.push(("far", encode(&m, Strategy::Plain)));
     }
     // mixed-case duplicates
